@@ -628,6 +628,16 @@ def zoo(tier='quick'):
     p = single('sim_gift_twice')
     gift(p, 'CA.HH', 'CA.BUS', name='TIP'); gift(p, 'CA.HH', 'CA.BUS', name='TIP')
     Z.append(p)
+    # two tax flows in one currency zone: a federal one paying the federal government, a provincial one (declared in a second country of the zone,
+    # with a lower rate) paying the provincial government
+    p = Plan('samezone_federal_and_provincial_tax')
+    economy(p, 'AA', 'XXD', free_xr=False)
+    country(p, 'PR', 'XXD')
+    p.decl('PR.PGOV', lambda c: sd.ConsolidatedGovernment(c['PR'], c.nm('PGOV')), group='PR')
+    p.decl('PR.PTF', lambda c: sd.TaxFlow(c['PR'], c.nm('PTF'), taxrate=0.1, taxes_paid_to=c.nm('PGOV')), group='PR', kind='flow')
+    p.params += [('PR.PTF', 'TaxRate')]
+    p.features.add('two-tax-flows')
+    Z.append(p)
     Z.append(two_zone('xz_gold_mixed', dict(gov='gold_gov', mm=True), dict(gov='cons', caps=True, firm='fm1'),
                       [G('AA.HH', 'BB.CAP'), G('BB.HH', 'AA.HH')]))
     # flows whose source / target are firms and governments (not only households), within and across zones
@@ -760,6 +770,18 @@ def zoo(tier='quick'):
     Z.append(p)
     if tier == 'thorough':
         Z.extend(zoo_product())
+    return Z
+
+
+def ambiguous():
+    """Topologies whose wiring is ambiguous: the library refuses them (LogicError) - in every declaration order and under every renaming alike.
+    (If a tree does build one of them, the builds are compared like any other topology's.)"""
+    Z = []
+    # two capitalist sectors in one country next to one dividend-paying firm: who receives the dividends is ambiguous
+    p = single('sim_two_capitalists', caps=True, firm='fm1')
+    p.decl('CA.RENT', lambda c: sd.Capitalists(c['CA'], c.nm('RENT'), alpha_income=0.4, alpha_fin=0.3, consumption_good_name=c.nm('GOOD')), group='CA')
+    p.features.add('ambiguous')
+    Z.append(p)
     return Z
 
 
